@@ -2,6 +2,7 @@ package q
 
 import (
 	"errors"
+	"fmt"
 )
 
 // Parser converts the query string into an Engine that can be evaluated.
@@ -16,6 +17,14 @@ func NewParser() *Parser {
 
 // ParseString returns a new Engine by parsing the query string.
 func (p *Parser) ParseString(q string) (engine *Engine, err error) {
+	// Whatever the input is it must lead to an engine or an error.
+	defer func() {
+		if r := recover(); r != nil {
+			engine = nil
+			err = fmt.Errorf("cannot parse query: %v", r)
+		}
+	}()
+
 	engine = &Engine{}
 	p.tokens = NewTokenizer().TokenizeString(q)
 
